@@ -259,6 +259,22 @@ func runC02(r *ev.Run) {
 			}
 		}
 		nOps := 8 + rng.IntN(40)
+		// every tenth case of each kind starts from a large index whose size sits next to a power of two (see C01)
+		if (ci/5)%10 == 7 {
+			bulk := []int{255, 256, 257, 258, 259, 511, 513, 1022, 1025}[rng.IntN(9)]
+			nOps = 6 + rng.IntN(10)
+			for i := 0; i < bulk; i++ {
+				id, v := ids.next(), vg.fresh()
+				if err := s.idx.Add(*comet.NewVectorNodeWithID(id, cloneF32(v))); err != nil {
+					rep(kind+".add-error", fmt.Sprintf("bulk Add(%d): %v", id, err))
+					return
+				}
+				m.add(id, v)
+			}
+			hist = append(hist, histOp{Op: fmt.Sprintf("bulk-add x%d", bulk)})
+			r.Count("cases:large-index:"+kind, 1)
+			r.Count("ops:add", int64(bulk))
+		}
 		for op := 0; op < nOps; op++ {
 			c := rng.IntN(10)
 			switch {
@@ -295,6 +311,10 @@ func runC02(r *ev.Run) {
 					}
 					if !nz {
 						v[0] = 1
+					}
+					if rng.IntN(4) == 0 {
+						v = cloneF32(m.raw[id]) // the very same vector again
+						r.Count("ops:re-add-with-unchanged-vector", 1)
 					}
 					hist = append(hist, histOp{Op: "re-add", ID: id, Vec: cloneF32(v)})
 					if err := s.idx.Add(*comet.NewVectorNodeWithID(id, cloneF32(v))); err != nil {
